@@ -233,7 +233,7 @@ def plan(pid: str, tier: str, seed: int) -> dict:
         )
     if pid == "C06":
         progs = core + extra + [PR.by_name(n) for n in ("before2", "beforeafter", "afterfail", "siblingfail",
-                                                        "pausepar", "pausechain", "restartjump", "restartplain")] + PR.region_family()
+                                                        "pausepar", "pausechain", "restartjump", "restartplain", "susp")] + PR.region_family()
         nseed = 10 if quick else 100
         return dict(
             progs=progs, props=["C06_Legal", "C06_CompletedIsFinal"],
@@ -258,6 +258,13 @@ def plan(pid: str, tier: str, seed: int) -> dict:
                                   "opts": {"pause_at": at, "unpause_after": 99, "shuffle": False, "hold": h}}
                                  for p in progs if p["name"] in ("pausepar", "diamond", "failbranch")
                                  for at in range(2, refs[p["name"]]["steps"] + 1) for h in [s["ref"] for s in p["stages"]][:3]]
+                              + [   # an operator restart of a stage at ANY step: running, suspended (then signalled), paused, not started
+                                 {"kind": "operator", "prog": p, "seeds": [seed * 1000 + at],
+                                  "opts": {"restart": rs, "restart_at": at, "shuffle": False, "signal_after": True, "pause_at": pa}}
+                                 for p in progs if p["name"] in ("susp", "pausechain", "chain2")
+                                 for rs in [s["ref"] for s in p["stages"]][:2]
+                                 for pa in ((-1, 4) if p["name"] == "pausechain" else (-1,))
+                                 for at in range(2, refs[p["name"]]["steps"] + 3, 2 if quick else 1)]
                               + [{"kind": "operator", "prog": p, "seeds": [seed * 1000 + i], "opts": {"restart": rs, "shuffle": i > 0}}
                                  for p in progs if p["name"] in ("restartjump", "restartplain", "diamond", "termchain")
                                  for rs in ("a", "b") for i in range(3)],
